@@ -195,6 +195,9 @@ class Scalar (α : Type) where
   inf : α
   /-- `math.exp` (OverflowError when the result is not representable) -/
   exp : α → Except Err α := fun _ => .error "err:unsupported"
+  /-- Python `a == b` on floats (false as soon as one side is NaN); by default what the comparison says: neither below
+      the other, neither NaN -/
+  eq : α → α → Bool := fun a b => !(lt a b) && !(lt b a) && !(isNaN a) && !(isNaN b)
   /-- `math.log` on a positive argument (`Log` tests `val > 0` itself) -/
   log : α → Except Err α := fun _ => .error "err:unsupported"
   /-- `math.cos`, `math.sin`, `math.tan` (ValueError on an infinite argument) -/
@@ -250,6 +253,7 @@ instance : Scalar Float where
   ofDec := fun m k => Float.ofScientific m true k
   inf := 1.0 / 0.0
   exp := floatExp
+  eq := fun a b => a == b
   log := fun x => .ok x.log
   cos := floatTrig Float.cos
   sin := floatTrig Float.sin
@@ -431,23 +435,23 @@ def vvAt (o : Char) (a b : α) : Except Err α :=
 def vvOp (o : Char) (a b : List α) : Except Err (List α) := zipWithM' (vvAt o) a b
 
 /-- `s+ s- s* s/ s^ s> s<` : ScalarAdder, ScalarSubstracter, ScalarMuliplier, ScalarDivider
-    (multiplication by `1.0/number`), ScalarPower, ScalarAbove, ScalarBelow -/
+    (`x / number` at every observation since fix 5676890 — it used to be a multiplication by `1.0/number` —; Python
+    raises ZeroDivisionError at the first observation when the number is 0), ScalarPower, ScalarAbove, ScalarBelow -/
 def vsOp (o : Char) (a : List α) (s : α) : Except Err (List α) :=
   if o = '+' then .ok (a.map (fun x => add x s)) else if o = '-' then .ok (a.map (fun x => sub x s))
   else if o = '*' then .ok (a.map (fun x => mul x s))
-  else if o = '/' then (if isZero s then .error "err:zerodiv" else .ok (a.map (fun x => mul x (div one s))))
+  else if o = '/' then mapM' (fun x => if isZero s then Except.error "err:zerodiv" else .ok (div x s)) a
   else if o = '^' then mapM' (fun x => pow x s) a
   else if o = '>' then .ok (a.map (fun x => ofBool (lt s x))) else if o = '<' then .ok (a.map (fun x => ofBool (lt x s)))
   else .error "err:unsupported"
 
 /-- `sr+ sr- sr* sr/ sr^ sr> sr<` : ScalarAdder, ScalarRevSubstracter, ScalarMuliplier, ScalarRevDivider
-    (Inverser `1.0/x`, which raises on 0, then multiplication), ScalarRevPower, ScalarRevAbove, ScalarRevBelow -/
+    (`number / x` at every observation since fix 5676890 — it used to be Inverser `1.0/x` followed by a multiplication —;
+    ZeroDivisionError at the first zero value), ScalarRevPower, ScalarRevAbove, ScalarRevBelow -/
 def svOp (o : Char) (s : α) (a : List α) : Except Err (List α) :=
   if o = '+' then .ok (a.map (fun x => add x s)) else if o = '-' then .ok (a.map (fun x => sub s x))
   else if o = '*' then .ok (a.map (fun x => mul x s))
-  else if o = '/' then do
-    let inv ← mapM' (fun x => if isZero x then Except.error "err:zerodiv" else .ok (div one x)) a
-    pure (inv.map (fun x => mul x s))
+  else if o = '/' then mapM' (fun x => if isZero x then Except.error "err:zerodiv" else .ok (div s x)) a
   else if o = '^' then mapM' (fun x => pow s x) a
   else if o = '>' then .ok (a.map (fun x => ofBool (lt x s))) else if o = '<' then .ok (a.map (fun x => ofBool (lt s x)))
   else .error "err:unsupported"
@@ -500,12 +504,17 @@ def avgL (c : List α) : Except Err α :=
     `1e300`); NaN never compares below, so it is skipped; on an empty or all-NaN feature the start value comes back -/
 def minL (c : List α) : α := c.foldl (fun m v => if lt v m then v else m) inf
 def maxL (c : List α) : α := c.foldl (fun m v => if lt m v then v else m) (neg inf)
-/-- the loops of Argmin / Argmax: `if val < minimum: minimum = val; idmin = i` from `minimum = float('inf')`, `idmin = 0` -/
-def argLoop (better : α → α → Bool) : List α → Nat → α → Nat → Nat
+/-- the loops of Argmin / Argmax since fix b728412: `minimum = float('inf')`, `idmin = None`,
+    `if val < minimum or (idmin is None and val == minimum): minimum = val; idmin = i`; the index is an `Option`
+    (it used to start at 0 and move on a strict improvement only: `[nan, inf, inf]` gave 0, the index of the NaN) -/
+def argLoop (better : α → α → Bool) : List α → Nat → α → Option Nat → Option Nat
   | [], _, _, best => best
-  | v :: vs, i, cur, best => if better v cur then argLoop better vs (i + 1) v i else argLoop better vs (i + 1) cur best
-def argminL (c : List α) : α := ofNat (argLoop (fun v m => lt v m) c 0 inf 0)
-def argmaxL (c : List α) : α := ofNat (argLoop (fun v m => lt m v) c 0 (neg inf) 0)
+  | v :: vs, i, cur, best =>
+    if better v cur || (best.isNone && eq v cur) then argLoop better vs (i + 1) v (some i)
+    else argLoop better vs (i + 1) cur best
+/-- `return 0 if idmin is None else idmin` -/
+def argminL (c : List α) : α := ofNat ((argLoop (fun v m => lt v m) c 0 inf none).getD 0)
+def argmaxL (c : List α) : α := ofNat ((argLoop (fun v m => lt m v) c 0 (neg inf) none).getD 0)
 /-- order of `np.argsort`: NaN last -/
 def leNaNLast (a b : α) : Bool := if isNaN b then true else if isNaN a then false else !(lt b a)
 def sortL (c : List α) : List α := c.mergeSort leNaNLast
@@ -556,7 +565,7 @@ def aggFn (f : Str) (c : List α) : Except Err α :=
 abbrev Res (α β : Type) := Except Err β × Tr α
 
 /-- a void operator's `execute`: `createAnalyticalFeature(out)`, compute `temp` from the inputs
-    (nothing is written if that raises), `addListToAF(out, temp)` -/
+    (nothing is written if that raises — but `out` has been created), `addListToAF(out, temp)` -/
 def runVoid (tr : Tr α) (out : Str) (compute : Tr α → Except Err (List α)) : Res α (List α) :=
   match createAF tr out (konst tr zero) with
   | .error e => (.error e, tr)
@@ -570,10 +579,12 @@ def runVoid (tr : Tr α) (out : Str) (compute : Tr α → Except Err (List α)) 
 
 def opBin (tr : Tr α) (o : Char) (in1 in2 out : Str) : Res α (List α) :=
   runVoid tr out (fun t => do let a ← getAF t in1; let b ← getAF t in2; vvOp o a b)
+/-- the scalar operators `s+ … s<`: ScalarDivider included, which since fixes 5676890 / 2dd86ce has the shape of the others
+    (`createAnalyticalFeature(out)`, `temp[i] = x[i] / number` — ZeroDivisionError at the first observation for a zero
+    number, `out` already created —, `addListToAF`); it used to evaluate `1.0 / number` before anything was created -/
 def opScal (tr : Tr α) (o : Char) (inp : Str) (s : α) (out : Str) : Res α (List α) :=
-  -- ScalarDivider evaluates `1.0 / number` before anything is created
-  if o = '/' && isZero s then (.error "err:zerodiv", tr)
-  else runVoid tr out (fun t => do let a ← getAF t inp; vsOp o a s)
+  runVoid tr out (fun t => do let a ← getAF t inp; vsOp o a s)
+/-- `sr+ … sr<`: ScalarRevDivider included (`temp[i] = number / x[i]` after `createAnalyticalFeature(out)`) -/
 def opScalRev (tr : Tr α) (o : Char) (inp : Str) (s : α) (out : Str) : Res α (List α) :=
   runVoid tr out (fun t => do let a ← getAF t inp; svOp o s a)
 /-- the input column of a void function. The reads are per observation inside the loops: on a track
